@@ -30,7 +30,8 @@ ASSUMPTIONS = [
 ]
 FLOORS = {
     "quick": {"segmented-executions": 30000, "segmented-executions-with-client-debug": 8000,
-              "segmented-executions-over-tls": 15000, "segmented-executions-on-a-slow-link": 5000, "cut-inside-literal": 3000, "streams": 150,
+              "segmented-executions-over-tls": 15000, "segmented-executions-on-a-slow-link": 5000,
+              "executions-on-a-client-with-a-broken-off-literal-behind-it": 1500, "cut-inside-literal": 3000, "streams": 150,
               "boundary-streams-exact-multiple-of-read-size": 12},
     "thorough": {"segmented-executions": 1500000,
                  "segmented-executions-with-client-debug": 300000,
@@ -97,11 +98,28 @@ def reply_corpus(rng, n):
 SENT = b'OK "sentinel one"\r\nNO (SENTINEL-7) "sentinel two"\r\n'
 
 
-def execute(op, args, stream, seg, connect_stream=None, debug=False, tls=False, slow=False):
+def execute(op, args, stream, seg, connect_stream=None, debug=False, tls=False, slow=False,
+            past=False):
     """Run op + two sentinels against `stream` under segmentation `seg`.
     -> (outcome key, unread bytes, client buffer)"""
     srv = ms.Server(users={b"user": b"pw"}, encodings="quoted")
-    sess, r = mslab.authed_session(srv, debug=debug, starttls=tls)
+    if past:
+        # the client object has a past: an earlier connection on which a literal broke off
+        # half-way (announced {100}, 40 octets in small pieces, then the peer closed)
+        srv0 = ms.Server(users={b"user": b"pw"}, encodings="quoted")
+        sess = mslab.Session(srv0, ms.Seg(), debug=debug)
+        if sess.connect("user", "pw") != ("ret", True):
+            return None
+        srv0.canned = [b"{100}\r\n" + b"p" * 40]
+        sess.sock.seg = ms.Seg(cap=7)
+        srv0.eof_after_canned = True
+        sess.call("getscript", "gone")
+        sess.server = srv
+        sess.seg = ms.Seg()
+        sess.wire = ms.Wire()
+        r = sess.connect("user", "pw", starttls=True) if tls else sess.connect("user", "pw")
+    else:
+        sess, r = mslab.authed_session(srv, debug=debug, starttls=tls)
     if r != ("ret", True):
         return None
     srv.canned = [stream, b'OK "sentinel one"\r\n', b'NO (SENTINEL-7) "sentinel two"\r\n']
@@ -253,8 +271,15 @@ def run_replies(shard, res: Result, tier):
         runs = [r + (False,) for r in runs] + [
             (k, p, False, False, True) for k, p in segs if k in ("cap", "random") or
             (k == "cut" and p[0] % 5 == 0)]
-        for kind, p, debug, tls, slow in runs:
-            got = execute(op, args, stream, mkseg(kind, p), debug=debug, tls=tls, slow=slow)
+        runs = [r + (False,) for r in runs]
+        if op in ("getscript", "listscripts", "capability"):
+            runs += [(k, p, False, False, False, True) for k, p in [("cap", 64), ("cap", 4096)] +
+                     [sg for sg in segs if sg[0] == "cut"][::4]]
+        for kind, p, debug, tls, slow, past in runs:
+            got = execute(op, args, stream, mkseg(kind, p), debug=debug, tls=tls, slow=slow,
+                          past=past)
+            if past:
+                res.count("executions-on-a-client-with-a-broken-off-literal-behind-it")
             res.count("segmented-executions")
             if slow:
                 res.count("segmented-executions-on-a-slow-link")
@@ -264,7 +289,7 @@ def run_replies(shard, res: Result, tier):
                 res.count("segmented-executions-with-client-debug")
                 kind_l = kind
             res.observe("segmentation-kinds", kind)
-            res.case(repr((op, stream, kind, p, debug, tls, slow)))
+            res.case(repr((op, stream, kind, p, debug, tls, slow, past)))
             inside = kind in ("cut", "cut2") and any(a < c < e for c in p for a, e in spans)
             if inside:
                 res.count("cut-inside-literal")
@@ -278,7 +303,7 @@ def run_replies(shard, res: Result, tier):
                                ("cap/random" if kind in ("cap", "random") else
                                 "outside-literal")},
                               {"op": op, "stream": stream, "segmentation": [kind, repr(p)],
-                               "client_debug": debug, "over_tls": tls, "slow_link": slow,
+                               "client_debug": debug, "over_tls": tls, "slow_link": slow, "broken_past": past,
                                "whole": repr(base[0])[:300], "segmented": repr(got[0])[:300]})
                 continue
             # quiescence only where the baseline itself is quiescent
@@ -414,7 +439,8 @@ def replay(witness, res: Result):
             "setactive": ("x",), "havespace": ("x", 5)}[op]
     base = execute(op, args, stream, ms.Seg())
     got = execute(op, args, stream, mkseg(kind, p), debug=bool(witness.get("client_debug")),
-                  tls=bool(witness.get("over_tls")), slow=bool(witness.get("slow_link")))
+                  tls=bool(witness.get("over_tls")), slow=bool(witness.get("slow_link")),
+                  past=bool(witness.get("broken_past")))
     print("whole    :", base[0])
     print("segmented:", got[0])
     if got[0] != base[0]:
